@@ -4,7 +4,7 @@ Specification: spec/Life.tla (state machine thread with its non-atomic teardown,
 1..2 consumers blocked in get_message, an application thread calling close(), the peer as environment: disconnect
 at any moment, DPR, DPA, refused connection).  TLC checks TerminalOk (no reachable state in which the connection is
 ending, no thread can move and something is not released), ClosedIsReleased, NoLockLeak for both roles and, under
-fairness, EventuallyReleased / CausesEnd; seven deviations (behaviours the tree had) are shown to violate them.
+fairness, EventuallyReleased / CausesEnd; eight deviations (behaviours the tree had) are shown to violate them.
 Binding:
  monitors -- the real node under the deterministic scheduler: every termination cause x every point of the
       connection life x {consumer blocked, not} x role, random and PCT schedules; after the end: state Closed,
@@ -36,36 +36,166 @@ def cfg(role, consumers, dev="{}", live=False, budget=2):
     return c
 
 
-DEVIATIONS = ("D_BlockingGet", "D_NoWakeOnClose", "D_ServerEofIgnored", "D_SetupEofIgnored", "D_WorkerUnguarded", "D_UnlockedStop", "D_SenderKeepsLock")
+TRACE_MODULE = r"""---- MODULE Trace_Life ----
+EXTENDS Life, Json, TLCExt, IOUtils
+Traces == JsonDeserialize(TRACEFILE)
+VARIABLES tid, l
+Max2(a, b) == IF a[1] > b[1] \/ (a[1] = b[1] /\ a[2] >= b[2]) THEN a ELSE b
+Progress == TLCSet(1, Max2(<<tid, l>>, TLCGet(1)))
+C1 == CHOOSE c \in Consumers : TRUE
+Proj == [phase |-> phase, running |-> running, active |-> active, stopA |-> stopA, trSet |-> trSet, connected |-> connected,
+         trStop |-> trStop, sockOpen |-> sockOpen, lsnOpen |-> lsnOpen, alock |-> alock, plock |-> plock, ready |-> ready,
+         postQ |-> postQ, tdone |-> (tpc = "done"), wdone |-> (wpc = "done"), pdone |-> (ppc = "done"), cret |-> (cpc[C1] = "ret"),
+         peerEof |-> peerEof, refused |-> refused]
+Fields == DOMAIN Proj
+T == Traces[tid]
+TraceInit == tid = 1 /\ l = 1 /\ Init /\ Proj = Traces[1][1] /\ TLCSet(1, <<1, 1>>)
+\* a real scheduler step may span several model steps: every observed variable moves from its current to its next recorded value
+\* (set membership, not a disjunction: TLC would fork the next-state computation on every field)
+Mix == LET nx == IF l < Len(T) THEN l + 1 ELSE l IN \A f \in Fields : Proj'[f] \in {T[l][f], T[nx][f]}
+TraceNext == \/ /\ Next /\ Mix /\ tid' = tid
+                /\ l' = IF l < Len(T) /\ Proj' = T[l + 1] THEN l + 1 ELSE l
+             \/ /\ l = Len(T) /\ tid < Len(Traces) /\ tid' = tid + 1 /\ l' = 1
+                /\ phase' = "Setup" /\ running' = TRUE /\ ppc' = "tick" /\ active' = FALSE /\ stopA' = FALSE /\ trSet' = TRUE
+                /\ connected' = TRUE /\ trStop' = FALSE /\ sockOpen' = TRUE /\ lsnOpen' = (Role = "server")
+                /\ tpc' = "check" /\ wpc' = "top" /\ alock' = Free /\ plock' = Free /\ ready' = FALSE /\ postQ' = 0
+                /\ cpc' = [c \in Consumers |-> "idle"] /\ cmsg' = [c \in Consumers |-> FALSE] /\ apc' = "idle" /\ spc' = "idle"
+                /\ peerEof' = FALSE /\ rst' = FALSE /\ dprIn' = FALSE /\ dprSent' = FALSE /\ dpaIn' = FALSE /\ estab' = FALSE
+                /\ refused' = Traces[tid + 1][1].refused /\ inbound' = 0 /\ budget' = Budget
+TraceSpec == TraceInit /\ [][TraceNext]_<<vars, tid, l>>
+Accepted == PrintT(<<"PROGRESS", TLCGet(1), Len(Traces), Len(Traces[Len(Traces)])>>)
+====
+"""
+
+
+class Recorder:
+    """projected state after every scheduler step of the first life of the node"""
+
+    def __init__(self):
+        self.obs = []
+        self.sc = None
+        self.tr_obj = None
+        self.stopped = False
+
+    def attach(self, sc):
+        self.sc = sc
+        sc.s.on_step = self.on_step
+
+    def holder(self, lock, is_alock):
+        if not lock.held or lock.owner is None:
+            return 0
+        nm = lock.owner.name
+        if nm.endswith("psm_thread"):
+            return 0 if is_alock else 100          # the state machine's short holds of the association lock are not modelled
+        if nm == "recv_message_monitor":
+            return 101
+        if nm.startswith("sender"):
+            return 102
+        if nm.startswith("consumer"):
+            return 1
+        return 999
+
+    def on_step(self, t):
+        if self.stopped:
+            return
+        n = self.sc.n
+        if n.generation != 1:
+            self.stopped = True
+            return
+        a = n.assoc
+        if a is None:
+            return
+        psm_obj = n.d._peer_state_machine
+        if self.tr_obj is None:
+            if a.transport is None or not psm_obj.is_running or not a.transport.is_connected:
+                return
+            if not any(th.name == "recv_message_monitor" for th in n.s.threads):
+                return
+            self.tr_obj = a.transport
+        byname = {th.name: th for th in n.s.threads}
+        psm_t = n.psm_thread
+        st = n.state()
+        phase = "Closed" if (st == "Closed" and psm_t.done) else st if st in ("Open", "Closing") else "Setup"
+        cons = byname.get("consumer1")
+        o = {"phase": phase, "running": bool(psm_obj.is_running), "active": bool(a.state_is_active), "stopA": bool(a._stop_threads),
+             "trSet": a.transport is not None, "connected": bool(self.tr_obj.is_connected), "trStop": bool(self.tr_obj._stop_threads),
+             "sockOpen": not n.sock.closed, "lsnOpen": bool(n.listen is not None and not n.listen.closed),
+             "alock": self.holder(a.lock, True), "plock": self.holder(a.postprocess_recv_messages_lock, False),
+             "ready": bool(a.postprocess_recv_messages_ready.flag), "postQ": len(a.postprocess_recv_messages.items),
+             "tdone": byname["transport_layer_thread"].done, "wdone": byname["recv_message_monitor"].done, "pdone": psm_t.done,
+             "cret": bool(cons is not None and cons.done), "peerEof": bool((n.sock.eof or n.sock.reset) and not n.sock.refused), "refused": bool(n.sock.refused)}
+        if not self.obs or self.obs[-1] != o:
+            self.obs.append(o)
+
+
+def validate(rep, role, items, selftest=False):
+    wd = tlc.workdir("Trace_Life")
+    try:
+        tf = os.path.join(wd, "traces.json")
+        json.dump([ev for ev, _m in items], open(tf, "w"))
+        c = cfg(role, [1]).replace("SPECIFICATION Spec", "SPECIFICATION TraceSpec").replace("INVARIANT TerminalOk\n", "")
+        c += "CONSTRAINT Progress\nPOSTCONDITION Accepted\n"
+        res, _ = tlc.run("Trace_Life", c, extra_modules={"Trace_Life": TRACE_MODULE.replace("TRACEFILE", T(tf))}, wd=wd, workers=1,
+                         timeout=3000, java_opts=("-Dtlc2.tool.queue.IStateQueue=StateDeque",))
+        if not selftest:
+            rep.tlc(f"Trace_Life role={role} {len(items)} traces", res)
+        if res.violated in ("ClosedIsReleased", "NoLockLeak") and not selftest:
+            rep.violation(f"TLC: invariant {res.violated} is false in a state matched by a recorded execution", items[0][1])
+            return None
+        m = re.search(r'<<\s*"PROGRESS"', res.out)
+        if not m:
+            tlc.must_ok(res, "Trace_Life")
+        val, _ = tlaval.parse_at(res.out, m.start())
+        (t, l), nt, nl = val[1], val[2], val[3]
+        if selftest:
+            return (t, l) == (nt, nl)
+        rep.traces_validated += t if (t, l) == (nt, nl) else t - 1
+        if (t, l) != (nt, nl):
+            rep.nonprop_differences += 1
+            ev = items[t - 1][0]
+            cur, nxt = ev[l - 1], ev[l] if l < len(ev) else None
+            rep.notes.setdefault("unexplained_divergences", []).append(
+                {"role": role, "trace": t, "state": l, "changes": {k: [cur[k], nxt[k]] for k in cur if nxt and cur[k] != nxt[k]}, "replay": items[t - 1][1]})
+        return (t, l) == (nt, nl)
+    finally:
+        tlc.cleanup(wd)
+
+
+DEVIATIONS = ("D_BlockingGet", "D_NoWakeOnClose", "D_ServerEofIgnored", "D_SetupEofIgnored", "D_WorkerUnguarded", "D_UnlockedStop", "D_SenderKeepsLock", "D_ResetUnhandled")
 
 CASES = [(role, cause, point) for role in ("client", "server")
          for cause, points in (("local", ("open", "open-inbound", "open-outbound")),
                                ("dpr", ("open", "open-inbound", "open-outbound", "closing")),
                                ("eof", ("setup", "wait-cea", "open", "open-inbound", "open-outbound", "closing")),
+                               ("rst", ("setup", "wait-cea", "open", "open-outbound", "closing")),
                                ("refused", ("refused",)))
          for point in points
-         if not (role == "server" and point in ("wait-cea", "refused")) and not (role == "client" and point == "setup" and cause != "eof")]
+         if not (role == "server" and point in ("wait-cea", "refused")) and not (role == "client" and point == "setup" and cause not in ("eof", "rst"))]
 
 
 def run(rep):
     nodemod.ensure_installed(rep.seed)
     quick = rep.tier == "quick"
-    rep.rule = ("TLC: teardown model, both roles, 2 consumers, every interleaving (+ liveness with 1 consumer; 7 deviations shown to violate the "
+    rep.rule = ("TLC: teardown model, both roles, 2 consumers, every interleaving (+ liveness with 1 consumer; 8 deviations shown to violate the "
                 "properties); monitors: cause x point x consumer x role under random / PCT schedules with restart; one-preemption sweeps at line "
                 "granularity; distinct = executions")
     b = 1 if quick else 2
-    for role in ("client", "server"):
-        res, _ = tlc.run("Life", cfg(role, [1, 2], budget=b), workers=16, timeout=2400)
+    # safety: both roles; the quick tier keeps the second consumer for the client only
+    for role, consumers in (("client", [1, 2]), ("server", [1] if quick else [1, 2])):
+        res, _ = tlc.run("Life", cfg(role, consumers, budget=b), workers=16, timeout=3400)
         tlc.must_ok(res, f"Life {role}")
-        rep.tlc(f"Life role={role} consumers=[1,2] budget={b} safety", res)
+        rep.tlc(f"Life role={role} consumers={consumers} budget={b} safety", res)
+    # liveness (fair behaviours): quick tier without inbound application traffic
     for role in ("client", "server"):
-        res, _ = tlc.run("Life", cfg(role, [1] if quick else [1, 2], live=True, budget=b), workers=16, timeout=6000)
+        lb = 0 if quick else 1
+        res, _ = tlc.run("Life", cfg(role, [1], live=True, budget=lb), workers=16, timeout=6000)
         tlc.must_ok(res, f"Life {role} liveness")
-        rep.tlc(f"Life role={role} liveness budget={b}", res)
+        rep.tlc(f"Life role={role} consumers=[1] budget={lb} liveness", res)
     for dev in DEVIATIONS:
         role = "server" if dev == "D_ServerEofIgnored" else "client"
-        live = dev in ("D_ServerEofIgnored", "D_SetupEofIgnored")       # a tick that never closes is a liveness failure
-        r2, _ = tlc.run("Life", cfg(role, [1] if live else [1, 2], dev='{"%s"}' % dev, live=live, budget=1), workers=16, timeout=1800)
+        live = dev in ("D_ServerEofIgnored", "D_SetupEofIgnored", "D_ResetUnhandled")       # a connection that never closes is a liveness failure
+        consumers = [1, 2] if dev == "D_UnlockedStop" else [1]
+        r2, _ = tlc.run("Life", cfg(role, consumers, dev='{"%s"}' % dev, live=live, budget=0 if live else 1), workers=16, timeout=1800)
         if not r2.violated:
             raise tlc.TlcError(f"vacuity self-test: deviation {dev} violates nothing")
         rep.notes.setdefault("deviations_shown_to_violate", {})[dev] = r2.violated
@@ -73,11 +203,15 @@ def run(rep):
     # ---- monitors
     reps = 1 if quick else 12
     nmon = 0
+    traces = {}
     for role, cause, point in CASES:
         for blocked in (False, True):
             for r in range(reps):
                 seed = rng.getrandbits(30)
-                verdict, info = assoc.run_life(seed, role, cause, point, blocked)
+                rec = Recorder()
+                verdict, info = assoc.run_life(seed, role, cause, point, blocked, hook=rec.attach)
+                if not verdict and len(rec.obs) > 1:
+                    traces.setdefault(role, []).append((rec.obs, {"kind": "life", "args": [seed, role, cause, point, blocked]}))
                 nmon += 1
                 rep.case(("life", role, cause, point, blocked, r))
                 if verdict:
@@ -86,6 +220,22 @@ def run(rep):
                     if len(rep.violations) >= 10:
                         return
     rep.notes["monitored_executions"] = nmon
+    # ---- T: the recorded state sequences are behaviours of Life
+    for role, items in traces.items():
+        if quick:
+            items = items[::4]
+        for i in range(0, len(items), 40):
+            validate(rep, role, items[i:i + 40])
+    if traces.get("client"):
+        obs, meta = traces["client"][-1]
+        bad = json.loads(json.dumps(obs))
+        k = next((i for i, o in enumerate(bad) if o["stopA"]), len(bad) - 1)
+        for o in bad[k:]:
+            o["ready"] = False                       # as if the consumers were never woken
+        if validate(rep, "client", [(bad, meta)], selftest=True):
+            raise tlc.TlcError("binding self-test: a corrupted state sequence was accepted by Trace_Life")
+        rep.notes["binding_selftest"] = "state sequence with the go-ahead never set rejected"
+        rep.sample({"trace_prefix": obs[:3]})
     # ---- sweeps
     nsweep = 0
     for victim in ("worker", "consumer", "psm"):
